@@ -57,6 +57,8 @@ def to_sympy(t, syms, assumptions):
                      "erf": sp.erf, "pow": lambda a, b: a ** b}
             if n in table:
                 return table[n](*ch)
+            if ch:
+                return sp.Function(n.replace("!", "_"))(*ch)
         raise ValueError(f"term outside the CAS fragment: {x.decl().name()}")
 
     return rec(t)
